@@ -94,7 +94,10 @@ def run(ctx):
         "digest and seven end-to-end headers; of responses on status, body digest and four headers",
         "add parameters (layout, chunker, cid-version, raw-leaves) are observed through the root CID, decoded with a "
         "table built by calling the cluster add operation directly with explicit parameters",
-        "not covered: several arg= values on pin add/rm, percent-encoded spellings of hijacked paths, CONNECT/upgrade, "
+        "a pinning endpoint is recognised on the decoded path: percent-encoded spellings (letters, %2F separators) are the "
+        "same request and must be hijacked like the plain spelling; encoded near-misses must be relayed with the escaped "
+        "path preserved",
+        "not covered: several arg= values on pin add/rm, CONNECT/upgrade, "
         "concurrent requests",
     ]
     # SPEC + GEN
@@ -181,6 +184,8 @@ def key_of(cls, rec):
         sal = "%s:%s:type=%s" % (q["style"], q["arg"], q["type"])
     else:
         sal = q["streamerr"]
+    if q.get("enc", "-") != "-":
+        sal += ":enc=" + q["enc"]
     if cls in ("exact", "relay"):
         sal = q["method"] + ":" + sal
     return "C12:%s:%s:%s" % (cls, r, sal)
